@@ -54,7 +54,19 @@ RULE = (
     "affected object receives an equivalent documented form: subscript array / explicit slice bounds / one full "
     "subscript per entry / python list) and counted with labels 'excluded:<tag>'; with try_known=true the natural "
     "form is tried on a snapshot first ('exercised:<tag>') and the equivalent form is used after a failure, so "
-    "the history continues behind the known defect."
+    "the history continues behind the known defect.  Round 3: (several live objects) every object a read returns - "
+    "tensor, sparse tensor or vector of values - is assigned to (first entry := 987654) before the source is judged "
+    "again, in every cell; single-read and enumerated cells then assign to the source (first and last position read) "
+    "and judge the kept result; every array / tensor / sparse-tensor right-hand side is changed in place after the "
+    "assignment and the target judged again, and at the end of a history the kept right-hand sides must still hold "
+    "what their owner left in them; the cell history/forked keeps up to three region-read results alive as tensors of "
+    "their own (each with its own model, half of the kept reads through ints-and-slices-only keys) and addresses "
+    "later reads and writes to the source or to any of them - after every write every other live object is judged "
+    "against its own model.  (degenerate requests) writes through keys that address nothing: empty slices in every "
+    "spelling, empty index lists, the 0 x n subscript array, empty linear lists / arrays / slices, with scalar, zero, "
+    "empty-array and empty-tensor right-hand sides (never combined with growth) must leave shape and values alone; "
+    "reads through empty subscript arrays / linear keys return empty vectors.  Only the classes of *open* findings "
+    "are excluded from the clean / forked histories; repaired classes run in their natural form there too."
 )
 ASSUMPTIONS = [
     "data movement only: every comparison is exact (NaN-aware equality, -0.0 == 0.0)",
@@ -68,9 +80,18 @@ ASSUMPTIONS = [
     "extent, and both classes then grow to `stop` (generated with stop = last addressed index + 1 so that the grown "
     "extent is unambiguous); negative bounds count from the present extent and never grow; sparse region writes of "
     "an sptensor through a non-plain slice are accepted silently but misplace the values (known finding C04-S8).  "
-    "Every slice addresses at least one index: an empty region is rejected by sptensor reads (ValueError from the "
-    "constructor: a zero extent is not a valid sparse shape) while dense reads return an empty tensor, so the two "
-    "classes cannot be compared there",
+    "In *reads* every slice / index list of a region key addresses at least one index: an empty region is rejected by "
+    "sptensor reads (ValueError from the constructor: a zero extent is not a valid sparse shape) while dense reads "
+    "return an empty tensor, so the two classes cannot be compared there; in *writes* empty regions are generated "
+    "(round 3) and must be no-ops as in NumPy - established on the unchanged tree: both classes do nothing for every "
+    "empty slice and (dense) for empty ndarray / tensor right-hand sides; both raise for an empty index list, the "
+    "0 x n subscript array and (dense) the empty python list of linear indices (known findings C04-E1..E3); a sparse "
+    "region write whose right-hand side would be an array reaches S as scalar zero (no sparse tensor of zero extent "
+    "exists); an empty request together with an element that grows another mode is not generated (whether 'nothing "
+    "assigned beyond the extent' should grow is not fixed by the statement)",
+    "objects handed out by reads and right-hand sides handed in are the caller's: on the unchanged tree no read "
+    "result (tensor, sptensor, value vector) and no stored state shares memory with the source / the right-hand "
+    "side, so assigning to one must never show in the other",
     "derived start states (round 2): dense starts are constructed (float64, or int64 for integer-valued data) or "
     "grown by assignment (gen.build_tensor prov='grown': C-ordered buffer, numpy.int64 shape entries); sparse starts "
     "come from the constructor (float64 or int64 values), optionally with explicitly stored zeros (the state S*0 or "
@@ -113,7 +134,16 @@ KNOWN_TAGS = (
     "sprhs-npint",
     "single-row-list",
     "sprhs-slice-form",
+    "empty-list",
+    "empty-subs",
+    "empty-linlist",
 )
+
+# tags of the classes whose known finding is still open: only these are excluded by construction from the clean / forked
+# histories; the classes of repaired findings keep their [tag] in the clause name but run in their natural form
+OPEN_TAGS = ("lists-paired", "adv-split", "empty-list", "empty-subs", "empty-linlist")
+
+POKE = 987654.0  # the value written into every object a read returns, before the source is judged again
 
 
 def _form(key) -> str:
@@ -137,6 +167,9 @@ def natural(holder: str, shape, key, rhs):
     """The operation in the form documented for the holder (S: linear assignment -> subscript array)."""
     if holder == "S" and rhs is not None and key["f"].startswith("lin"):
         return M.as_subs(shape, key, rhs)
+    if holder == "S" and rhs is not None and rhs["r"] == "array" and not M.positions(shape, key):
+        # an empty region: no sparse tensor of that (zero) extent exists; the documented form left is a scalar
+        return key, dict(r="scalar", v=0.0, int=False)
     return key, rhs
 
 
@@ -146,16 +179,21 @@ def tags_for(holder: str, op: str, shape, key, rhs, X) -> List[str]:
     return M.sparse_tags(op, shape, key, rhs, X.subs, X.shape)
 
 
-def do_write(X, holder: str, shape, key, rhs) -> None:
-    """One documented assignment (pyttb call; may raise)."""
+def do_write(X, holder: str, shape, key, rhs, keep: Optional[list] = None) -> None:
+    """One documented assignment (pyttb call; may raise).  keep: receives the right-hand-side object."""
     rs = None
     if key["f"] == "tuple" and rhs["r"] == "array":
         rs = M.kept_shape(shape, key, M.grown_shape(shape, key))
-    X[M.py_key(key)] = M.py_rhs(rhs, holder, rs)
+    R = M.py_rhs(rhs, holder, rs)
+    if keep is not None:
+        keep.append(R)
+    X[M.py_key(key)] = R
 
 
 def dodge_write(X, holder: str, shape, key, rhs, tags) -> None:
     """The same assignment through an equivalent documented form that avoids the known classes."""
+    if not M.positions(shape, key):
+        return  # nothing is addressed (never combined with growth): the equivalent form is no statement at all
     if holder == "T":
         if list(tags) == ["single-row-list"]:
             do_write(X, "T", shape, key, dict(rhs, **{"as": "ndarray"}))
@@ -300,6 +338,8 @@ def _build_S(start):
 
 
 class State:
+    """one model array and the two objects (dense T, sparse S) that are to denote it"""
+
     def __init__(self, start):
         self.A = gen.dense_of_sparse_case(start)
         self.ez = frozenset(tuple(pos) for pos, _ in (start.get("ez") or []))
@@ -310,6 +350,27 @@ class State:
         self.alive = {"T": True, "S": True}
         self.grew = False
         self.nt = False
+        self.last_read = {}  # holder -> the object its last read returned (after the poke), None when not usable
+        self.kept_rhs = []  # (holder, right-hand-side object, array it must still denote at the end)
+        self.role = "source"
+
+    @classmethod
+    def of_read(cls, parent: "State", model: np.ndarray):
+        """the objects the last read of `parent` returned, kept alive as tensors of their own (model = the region read,
+        with the poke); a holder whose result is missing or has the other admissible shape (a length-one index list
+        dropped) is not followed"""
+        st = cls.__new__(cls)
+        st.A = np.array(model, dtype=float)
+        st.X, st.alive = {}, {}
+        for h in ("T", "S"):
+            r = parent.last_read.get(h)
+            ok = parent.alive[h] and isinstance(r, (ttb.tensor, ttb.sptensor)) and _shape_of(r) == st.A.shape
+            st.X[h] = r if ok else None
+            st.alive[h] = bool(ok)
+        # stored zeros handed over by a source that legitimately holds some may sit anywhere the model is zero
+        st.ez = frozenset(tuple(int(i) for i in p) for p in np.argwhere(st.A == 0)) if parent.ez else frozenset()
+        st.grew, st.nt, st.last_read, st.kept_rhs, st.role = False, False, {}, [], "read-result"
+        return st
 
 
 def _label_start(ctx, start, st_, holders) -> None:
@@ -359,14 +420,22 @@ def step(ctx, st: State, op: Dict[str, Any], holders=("T", "S"), try_known=True)
         ctx.label(f"w-{form}", "rhs-" + rhs["r"] + ("-zero" if rhs["r"] == "scalar" and rhs["v"] == 0 else ""))
         if rhs.get("idt"):
             ctx.label("rhs-int64-array")
+        if (vals != 0).any() and float(np.abs(vals[vals != 0]).min()) < 1e-6:
+            ctx.label("rhs-tiny-nonzero")
+        if bool(np.signbit(vals[vals == 0]).any()):
+            ctx.label("rhs-negative-zero")
         if B.shape != A.shape:
             ctx.label("grow-order" if B.ndim != A.ndim else "grow-extent")
             st.grew = True
         if mixed:
             ctx.label("mixed-zero-nonzero")
+        if not pos_w:
+            ctx.label("w-empty-request", "w-empty-request-" + form)
     else:
         expect = M.model_read(A, key)
         ctx.label(f"r-{form}")
+        if expect[0] == "vector" and expect[1].size == 0:
+            ctx.label("r-empty-request")
         if form == "region" and not np.any(expect[1]):
             ctx.label("r-region-without-nonzero")
     if key["f"] == "tuple" or key["f"] == "linslice":
@@ -385,7 +454,7 @@ def step(ctx, st: State, op: Dict[str, Any], holders=("T", "S"), try_known=True)
             k, r = natural(h, shape, key, rhs)
             tags = tags_for(h, "write", shape, k, r, X)
             what = f"{h}.write-{_form(k)}{_suffix(tags)}"
-            if tags and not try_known:
+            if any(t in OPEN_TAGS for t in tags) and not try_known:
                 ctx.label(*[f"excluded:{t}" for t in tags])
                 ok = _guard(ctx, f"{h}.write-{_form(k)}(equivalent)", lambda: dodge_write(X, h, shape, k, r, tags))
                 ok = ok and check_write(ctx, f"{h}.write-{_form(k)}(equivalent)", X, h, B, ez)
@@ -393,8 +462,16 @@ def step(ctx, st: State, op: Dict[str, Any], holders=("T", "S"), try_known=True)
                 snap = copy.deepcopy(X) if tags else None
                 if tags:
                     ctx.label(*[f"exercised:{t}" for t in tags])
-                ok = _guard(ctx, what, lambda: do_write(X, h, shape, k, r))
+                rk: list = []
+                ok = _guard(ctx, what, lambda: do_write(X, h, shape, k, r, rk))
                 ok = ok and check_write(ctx, what, X, h, B, ez)
+                if ok and rk:
+                    # the right-hand-side object stays the caller's: changing it afterwards must not reach the tensor
+                    expect = _edit_rhs(rk[0])
+                    if expect is not None:
+                        ctx.label("rhs-edited-after-write")
+                        ok = check_write(ctx, f"{h}.write-{_form(k)}:after-editing-right-hand-side", X, h, B, ez)
+                        st.kept_rhs = st.kept_rhs[-3:] + [(h, rk[0], expect)]
                 if not ok and tags:
                     # known class: go on behind it with the equivalent form on the snapshot
                     st.X[h] = X = snap
@@ -406,20 +483,79 @@ def step(ctx, st: State, op: Dict[str, Any], holders=("T", "S"), try_known=True)
             tags = tags_for(h, "read", shape, key, None, X)
             what = f"{h}.read-{form}{_suffix(tags)}"
             k = key
-            if tags and not try_known:
+            if any(t in OPEN_TAGS for t in tags) and not try_known:
                 ctx.label(*[f"excluded:{t}" for t in tags])
                 k = dodge_read_key(h, shape, key)
                 what = f"{h}.read-{_form(k)}(equivalent)"
             elif tags:
                 ctx.label(*[f"exercised:{t}" for t in tags])
             got = []
+            st.last_read[h] = None
             if _guard(ctx, what, lambda: got.append(X[M.py_key(k)])):
-                check_read(ctx, what, got[0], h, shape, k, M.model_read(A, k) if k is not key else expect, ez)
-            # a read must leave the state alone
-            check_write(ctx, what + ":state-after-read", X, h, A, ez)
+                if check_read(ctx, what, got[0], h, shape, k, M.model_read(A, k) if k is not key else expect, ez):
+                    # the object returned is the caller's: assigning into it must not reach the source
+                    if _poke(ctx, h, got[0]):
+                        st.last_read[h] = got[0]
+            # a read (and what is done to its result) must leave the state alone
+            if not check_write(ctx, what + ":state-after-read", X, h, A, ez):
+                st.alive[h] = False
     if is_write:
         st.A = B
         st.ez = ez
+
+
+def _edit_rhs(R):
+    """change a right-hand-side object in place (plain NumPy for arrays, a full-subscript assignment for tensors);
+    returns the array it denotes afterwards, None when there is nothing to change"""
+    try:
+        if isinstance(R, np.ndarray):
+            if R.size == 0 or not R.flags.writeable:
+                return None
+            R += 1000
+            return np.array(R, dtype=float)
+        if isinstance(R, (ttb.tensor, ttb.sptensor)) and ref.prod(_shape_of(R)) > 0:
+            R[tuple(0 for _ in R.shape)] = POKE
+            D = ref.den(R)
+            return D if D[tuple(0 for _ in R.shape)] == POKE else None
+    except Exception:  # noqa: BLE001  (the assignment into the right-hand side is judged where it is the operation)
+        return None
+    return None
+
+
+def _poke(ctx, h: str, r) -> bool:
+    """assign POKE to the first entry of an object a read returned (True when done)"""
+    if isinstance(r, np.ndarray):
+        if r.size == 0 or not r.flags.writeable:
+            return False
+        r[tuple(0 for _ in r.shape)] = POKE
+        return True
+    if isinstance(r, (ttb.tensor, ttb.sptensor)) and ref.prod(_shape_of(r)) > 0:
+        return _guard(ctx, f"{h}.write-full(into-read-result)", lambda: r.__setitem__(tuple(0 for _ in r.shape), POKE))
+    return False
+
+
+def _snapshot(r) -> np.ndarray:
+    return np.array(r, dtype=float) if isinstance(r, np.ndarray) else ref.den(r)
+
+
+def reverse_alias_check(ctx, st: State, holder: str, key) -> None:
+    """after a read whose result is still alive: assign to the source (first and last position the read addressed),
+    then judge the kept result - it must still hold what was read (and the poke)"""
+    r = st.last_read.get(holder)
+    if r is None or not st.alive[holder]:
+        return
+    pos = M.positions(list(st.A.shape), key, write=False)
+    if not pos:
+        return
+    before = _snapshot(r)
+    for p in ([pos[0], pos[-1]] if len(pos) > 1 else [pos[0]]):
+        cur = float(st.A[tuple(p)])
+        op = dict(op="w", key=dict(f="tuple", k=[int(i) for i in p]), rhs=dict(r="scalar", v=-cur - 3.0, int=False))
+        step(ctx, st, op, holders=(holder,), try_known=True)
+        if not st.alive[holder]:
+            return
+    after = _snapshot(r)
+    ctx.check(ref.same_exact(after, before), f"{holder}.read-result-after-write-to-source", ref.diff_info(after, before))
 
 
 def _guard(ctx, what: str, fn) -> bool:
@@ -528,6 +664,29 @@ def _elem(draw, n: Optional[int], grow: int, kinds=("int", "neg", "slice", "list
     return dict(l=lst) if kind == "list" else dict(a=lst)
 
 
+@st.composite
+def _empty_elem(draw, n: int):
+    """A key element that addresses no index of a mode of present extent n (round 3): slices in every spelling that
+    selects nothing without reaching beyond the extent - stop 0, start == stop, start > stop, start at / beyond the
+    extent, negative bounds, reversed and stepped empties - and empty index lists (python list / ndarray)."""
+    kind = draw(st.sampled_from(["slice", "slice", "slice", "list", "arr"]))
+    if kind == "list":
+        return dict(l=[])
+    if kind == "arr":
+        return dict(a=[])
+    a = draw(st.integers(0, n))
+    forms = [[None, 0], [0, 0], [a, a], [a, draw(st.integers(0, a))], [n, None], [n + draw(st.integers(0, 2)), None],
+             [a - n - 1 if a < n else -1, 0], [None, -n], [None, -n - 1], [a, a, 2], [0, draw(st.integers(0, n)), -1],
+             [None, None if n == 0 else n - 1, -1]]
+    s = draw(st.sampled_from(forms))
+    assert len(range(n)[slice(*s)]) == 0, (n, s)
+    return dict(s=s)
+
+
+def _is_empty_slice(e, n) -> bool:
+    return M.elem_kind(e) == "slice" and len(range(n)[M.slice_of(e)]) == 0
+
+
 def _maybe_np(draw, key):
     """integer subscripts as numpy.int64 in about one key out of six"""
     if any(M.is_int(e) for e in key["k"]) and draw(st.integers(0, 5)) == 0:
@@ -536,8 +695,9 @@ def _maybe_np(draw, key):
 
 
 @st.composite
-def _tuple_key(draw, shape, form: str, write: bool, room: float, max_order: int):
-    """form: 'full' | 'region'.  room = factor by which the cell count may still grow."""
+def _tuple_key(draw, shape, form: str, write: bool, room: float, max_order: int, kinds=None):
+    """form: 'full' | 'region'.  room = factor by which the cell count may still grow.  kinds: element kinds to draw
+    from (default all)."""
     N = len(shape)
     grow = 2 if (write and room >= 1.5) else 0
     if form == "full":
@@ -549,7 +709,7 @@ def _tuple_key(draw, shape, form: str, write: bool, room: float, max_order: int)
     budget = room
     for n in shape:
         g = grow if budget >= (n + 2) / n else (1 if (grow and budget >= (n + 1) / n) else 0)
-        e = draw(_elem(n, g, write=write))
+        e = draw(_elem(n, g, write=write, **({"kinds": kinds} if kinds else {})))
         ext = max(n, M.elem_extent(e, n))
         budget /= ext / n
         k.append(e)
@@ -558,6 +718,10 @@ def _tuple_key(draw, shape, form: str, write: bool, room: float, max_order: int)
     if all(M.is_int(e) for e in k):
         m = draw(st.integers(0, N - 1))
         k[m] = draw(_elem(shape[m], 0, kinds=("slice", "list", "arr"), write=write))
+    if write and len(k) == N and draw(st.integers(0, 7)) == 0 and M.grown_shape(shape, dict(f="tuple", k=k)) == list(shape):
+        # an empty request: one (sometimes two) of the elements selects nothing; never combined with growth
+        for m in draw(st.lists(st.integers(0, N - 1), min_size=1, max_size=2, unique=True)):
+            k[m] = draw(_empty_elem(shape[m]))
     return _maybe_np(draw, dict(f="tuple", k=k))
 
 
@@ -565,6 +729,8 @@ def _tuple_key(draw, shape, form: str, write: bool, room: float, max_order: int)
 def _subs_key(draw, shape, write: bool, room: float, max_order: int, max_p: int):
     N = len(shape)
     ext = list(shape)
+    if draw(st.integers(0, 11)) == 0:
+        return dict(f="subs", rows=[], ncols=N)  # the 0 x N subscript array: addresses nothing
     if write:
         budget = room
         for m, n in enumerate(shape):
@@ -588,6 +754,12 @@ def _lin_key(draw, shape, max_p: int, write: bool = True):
     f = draw(st.sampled_from(["lin", "linlist", "linarr", "linslice"]))
     if f == "lin":
         return dict(f="lin", i=draw(st.integers(-n, n - 1)))
+    if draw(st.integers(0, 9)) == 0:
+        # empty requests: no linear index at all
+        if f == "linslice":
+            a = draw(st.integers(0, n))
+            return dict(f="linslice", s=draw(st.sampled_from([[None, 0], [a, a], [a, draw(st.integers(0, a))], [n, None]])))
+        return dict(f=f, i=[])
     if f == "linslice" and draw(st.booleans()):
         return dict(f="linslice", s=draw(_general_slice(n, 0, write))["s"])
     if f == "linslice":
@@ -605,7 +777,7 @@ def _lin_key(draw, shape, max_p: int, write: bool = True):
 
 
 @st.composite
-def _key(draw, shape, write: bool, form: Optional[str], tier: str, cap: int):
+def _key(draw, shape, write: bool, form: Optional[str], tier: str, cap: int, kinds=None):
     max_order, _, _ = gen.tier_limits(tier)
     max_order += 1
     room = cap / max(1, ref.prod(shape))
@@ -616,7 +788,7 @@ def _key(draw, shape, write: bool, form: Optional[str], tier: str, cap: int):
     if form is None:
         form = draw(st.sampled_from(["full", "region", "region", "region", "subs", "subs", "linear", "linear"]))
     if form in ("full", "region"):
-        key = draw(_tuple_key(shape, form, write, room, max_order))
+        key = draw(_tuple_key(shape, form, write, room, max_order, kinds))
     elif form == "subs":
         key = draw(_subs_key(shape, write, room, max_order, max_p))
     else:
@@ -630,12 +802,19 @@ def _key(draw, shape, write: bool, form: Optional[str], tier: str, cap: int):
     return key
 
 
+# (round 3, near-special values) non-zero values far below every absolute tolerance - they are values, not zeros - and
+# the negative zero, which is a zero
+TINY = [1e-9, -1e-12, 1e-300, -1e-310, 5e-324]
+
+
 @st.composite
 def _values(draw, n: int, vkind: str, pattern: str):
     nz = gen.values(vkind, nonzero=True)
     if pattern == "zero":
-        return [0.0] * n
+        return [(-0.0 if (vkind == "float" and draw(st.integers(0, 3)) == 0) else 0.0) for _ in range(n)]
     vals = draw(st.lists(nz, min_size=n, max_size=n))
+    if vkind == "float" and n and draw(st.integers(0, 4)) == 0:
+        vals[draw(st.integers(0, n - 1))] = draw(st.sampled_from(TINY))
     if pattern == "mixed" and n >= 2:
         mask = draw(st.lists(st.booleans(), min_size=n, max_size=n))
         if all(mask):
@@ -654,10 +833,14 @@ def _rhs(draw, shape, key, vkind: str):
     choice = draw(st.sampled_from(["scalar", "zero", "many", "many"])) if many_ok else draw(
         st.sampled_from(["scalar", "scalar", "zero"]))
     if choice == "zero":
+        if vkind == "float" and draw(st.integers(0, 4)) == 0:
+            return dict(r="scalar", v=-0.0, int=False)  # the negative zero is a zero
         return dict(r="scalar", v=0.0, int=draw(st.booleans()))
     if choice == "scalar":
         if draw(st.integers(0, 2)) == 0:
             return dict(r="scalar", v=draw(gen.NZ_INT_VALUES), int=True)
+        if vkind == "float" and draw(st.integers(0, 5)) == 0:
+            return dict(r="scalar", v=draw(st.sampled_from(TINY)), int=False, np=draw(st.booleans()), tiny=True)
         return dict(r="scalar", v=draw(gen.values(vkind, nonzero=True)), int=False, np=draw(st.booleans()))
     pattern = draw(st.sampled_from(["nonzero", "nonzero", "mixed", "mixed", "zero"]))
     vals = draw(_values(count, vkind, pattern))
@@ -724,21 +907,43 @@ def _single(draw, tier, opk: str, form: str):
     return dict(start=start, op=op)
 
 
+BASIC = ("int", "neg", "slice", "slice")  # ints and slices only: the keys for which NumPy itself returns views
+
+
 @st.composite
-def _history(draw, tier, try_known: bool):
+def _history(draw, tier, try_known: bool, fork: bool = False):
+    """fork (round 3): objects returned by region reads are kept alive as tensors of their own ('keep'); later
+    operations are addressed ('on') to the source or to any kept object, each of which has its own model."""
     _, cap, max_steps = _caps(tier)
-    start = draw(_start(tier, allow_empty=True))
-    A = gen.dense_of_sparse_case(start)
-    n = draw(st.integers(2, max_steps))
+    start = draw(_start(tier, allow_empty=not fork))
+    models = [gen.dense_of_sparse_case(start)]
+    n = draw(st.integers(3 if fork else 2, max_steps))
     ops = []
     for _ in range(n):
+        j = 0
+        if len(models) > 1 and draw(st.booleans()):
+            j = draw(st.integers(1, len(models) - 1))
+        A = models[j]
         shape = list(A.shape)
-        write = draw(st.integers(0, 9)) < 6 or len(shape) == 0
-        key = draw(_key(shape, write, None, tier, cap))
+        write = draw(st.integers(0, 9)) < (5 if fork else 6) or len(shape) == 0
+        form, kinds = None, None
+        if fork and not write and len(models) < 4:
+            form = draw(st.sampled_from(["region", "region", None]))
+            kinds = BASIC if draw(st.booleans()) else None
+        key = draw(_key(shape, write, form, tier, cap, kinds))
         op = dict(op="w" if write else "r", key=key)
+        if fork:
+            op["on"] = j
         if write:
             op["rhs"] = draw(_rhs(shape, key, start["vkind"]))
-            A = M.model_write(A, key, op["rhs"])
+            models[j] = M.model_write(A, key, op["rhs"])
+        elif fork and len(models) < 4 and _form(key) == "region" and draw(st.integers(0, 3)) > 0:
+            kind, region = M.model_read(A, key)
+            if kind == "region":
+                child = np.array(region, dtype=float)
+                child[tuple(0 for _ in child.shape)] = POKE
+                models.append(child)
+                op["keep"] = True
         ops.append(op)
     return dict(start=start, ops=ops, try_known=try_known)
 
@@ -758,18 +963,59 @@ def _run_history(ctx, case):
             check_write(ctx, f"{h}.start", X, h, st_.A, st_.ez)
     else:
         ctx.label("empty-start")
+    fams = [st_]  # the source and every kept read result, each with its own model
     nsteps = 0
+    forked_writes = 0
     for op in case["ops"]:
-        step(ctx, st_, op, try_known=case["try_known"])
+        j = op.get("on", 0)
+        cur = fams[j]
+        if not (cur.alive["T"] or cur.alive["S"]):
+            if j == 0:
+                break
+            if op.get("keep"):
+                fams.append(State.of_read(cur, np.zeros((1,))))  # keeps the numbering; never alive
+                fams[-1].alive = {"T": False, "S": False}
+            continue
+        step(ctx, cur, op, try_known=case["try_known"])
         nsteps += 1
-        if not (st_.alive["T"] or st_.alive["S"]):
-            break
+        if op.get("keep"):
+            region = M.model_read(cur.A, op["key"])[1]
+            child = np.array(region, dtype=float)
+            child[tuple(0 for _ in child.shape)] = POKE
+            fams.append(State.of_read(cur, child))
+            ctx.label("kept-read-result")
+            if fams[-1].alive["T"] != fams[-1].alive["S"]:
+                ctx.label("kept-read-result-one-holder-only")
+        if op["op"] == "w" and len(fams) > 1:
+            # every other live object must still denote its own model
+            live_others = 0
+            for i, f in enumerate(fams):
+                if i == j:
+                    continue
+                for h in ("T", "S"):
+                    if f.alive[h]:
+                        live_others += 1
+                        if not check_write(ctx, f"{h}.{f.role}-after-write-to-{cur.role}", f.X[h], h, f.A, f.ez):
+                            f.alive[h] = False
+            if live_others:
+                forked_writes += 1
+                ctx.label(f"write-to-{cur.role}-with-other-objects-alive")
+    # right-hand-side objects handed over earlier still denote what their owner left in them
+    for f in fams:
+        for h, R, expect in f.kept_rhs:
+            got = _snapshot(R)
+            ctx.check(ref.same_exact(got.reshape(-1, order="F"), expect.reshape(-1, order="F")),
+                      f"{h}.right-hand-side-after-later-writes", ref.diff_info(got.reshape(-1, order="F"), expect.reshape(-1, order="F")))
     # (few labels here: the evidence keeps the 40 most frequent ones and the excluded:/exercised: counts matter most)
     ctx.label("steps<10" if nsteps < 10 else ("steps-10..29" if nsteps < 30 else "steps>=30"))
-    ctx.nt = st_.nt
+    if len(fams) > 1:
+        ctx.label(f"objects-{len(fams)}")
+        ctx.nt = forked_writes >= 1
+    else:
+        ctx.nt = st_.nt
 
 
-@cell("C04/history/clean", strategy=lambda tier: _history(tier, False), quick=700, thorough=16000, shards=(8, 16))
+@cell("C04/history/clean", strategy=lambda tier: _history(tier, False), quick=450, thorough=16000, shards=(8, 16))
 def history_clean(ctx, case):
     """known classes excluded by construction (equivalent documented form for the affected object)"""
     _run_history(ctx, case)
@@ -778,6 +1024,15 @@ def history_clean(ctx, case):
 @cell("C04/history/raw", strategy=lambda tier: _history(tier, True), quick=250, thorough=5000, shards=(4, 16))
 def history_raw(ctx, case):
     """known classes exercised in their natural form on a snapshot; the history goes on behind them"""
+    _run_history(ctx, case)
+
+
+@cell("C04/history/forked", strategy=lambda tier: _history(tier, False, fork=True), quick=260, thorough=8000,
+      shards=(4, 16))
+def history_forked(ctx, case):
+    """(round 3) several live objects: region reads return tensors that are kept alive and assigned to like any other
+    tensor while the source is assigned to as well; after every write every other object is judged against its own
+    model (known classes excluded by construction)"""
     _run_history(ctx, case)
 
 
@@ -803,6 +1058,8 @@ def _run_single(ctx, case, holder: str):
         ctx.nt = st_.A.shape != A0.shape or not np.array_equal(st_.A, A0)
     else:
         ctx.nt = A0.size >= 2 and (npos >= 2 or _form(op["key"]) == "full")
+        # the result of the read stays alive while the source is assigned to
+        reverse_alias_check(ctx, st_, holder, op["key"])
     if op["key"]["f"] == "tuple":
         kinds = sorted({M.elem_kind(e) for e in op["key"]["k"]})
         ctx.label("elems-" + "/".join(kinds), f"lists-{M.n_lists(op['key'])}")
@@ -828,7 +1085,7 @@ def _mk_single(holder_name: str, holder: str, opk: str, form: str, quick: int, t
 
 for _hn, _h in (("tensor", "T"), ("sptensor", "S")):
     for _opk in ("r", "w"):
-        for _form_, _q, _t in (("full", 200, 3000), ("region", 600, 12000), ("subs", 400, 8000),
+        for _form_, _q, _t in (("full", 200, 3000), ("region", 500, 12000), ("subs", 350, 8000),
                                ("linear", 300, 6000)):
             if _h == "S" and _opk == "w" and _form_ == "linear":
                 continue  # documented as unsupported
@@ -858,6 +1115,8 @@ def _alphabet(n: int, write: bool):
         out += [dict(l=[1, 2, 0])]
     if write:
         out += [n, dict(s=[None, n + 1]), dict(l=[n, 0]), dict(s=[n % 2, n + 1, 2])]
+        # (round 3) elements that select nothing
+        out += [dict(s=[None, 0]), dict(s=[n, None])]
     return out
 
 
@@ -869,6 +1128,9 @@ def _enum_keys(tier):
         for opk in ("r", "w0", "w1"):
             alph = [_alphabet(n, opk != "r") for n in sh]
             for k in itertools.product(*alph):
+                if opk != "r" and any(_is_empty_slice(e, n) for e, n in zip(k, sh) if not M.is_int(e)) and (
+                        M.grown_shape(sh, dict(f="tuple", k=list(k))) != list(sh)):
+                    continue  # an empty request is never combined with growth (nothing is assigned beyond the extent)
                 for holder in ("T", "S"):
                     yield dict(shape=list(sh), key=dict(f="tuple", k=list(k)), op=opk, holder=holder)
                     if opk == "r":
@@ -905,6 +1167,11 @@ def enumerated_region_keys(ctx, case):
     A0 = st_.A
     step(ctx, st_, op, holders=(case["holder"],), try_known=True)
     ctx.nt = True if opk == "r" else (st_.A.shape != A0.shape or not np.array_equal(st_.A, A0))
+    if opk == "r" and case.get("fill") is None:
+        reverse_alias_check(ctx, st_, case["holder"], case["key"])
+    if opk != "r" and not M.positions(case["shape"], case["key"]):
+        ctx.label("empty-request")
+        return  # (an empty region cannot be read back: sptensor has no zero-extent result)
     if opk != "r" and st_.alive[case["holder"]]:
         # read back what was written, through the same key
         step(ctx, st_, dict(op="r", key=_no_growth_key(case["key"])), holders=(case["holder"],), try_known=True)
@@ -934,7 +1201,7 @@ def _possible_tags(shape, A, op, stored_subs=None, grew=False) -> set:
         # stored order unknown: put the nonzeros in an order for which no deletion is "lucky"
         subs = nz[::-1] if len(nz) else np.array([])
         tags = set(M.sparse_tags(opn, shape, k, r, subs, None))
-        if opn == "write" and k["f"] == "subs" and len(nz):
+        if opn == "write" and k["f"] == "subs" and len(nz) and k["rows"]:
             vals = M.rhs_values(r, len(k["rows"]))
             if (vals == 0).all() and len(k["rows"][0]) == len(shape) and any(A[tuple(row)] != 0 for row in k["rows"]
                                                                                if all(i < n for i, n in zip(row, shape))):
@@ -980,3 +1247,246 @@ def _has(tag):
 
 PREDICATES = {("has_" + t.replace("-", "_")): _has(t) for t in KNOWN_TAGS}
 PREDICATES["has_dense_list_key"] = lambda case: bool({"lists-paired", "adv-split"} & _case_tags(case))
+
+
+# --------------------------------------------------------------------------
+# (round 3) sparse tensors with modes longer than 2**53: indices must stay exact integers
+# --------------------------------------------------------------------------
+# A sparse tensor holds only its stored entries, so a mode may be far longer than any array: here 2**53 + k and
+# 2**60 + k, where float64 no longer represents every integer.  Model: a python dict {subscript tuple: value} and a
+# python list for the shape (exact integer arithmetic, no dense counterpart).  Only key forms whose cost does not
+# depend on the mode length are used (full subscripts, regions of ints / short index lists, subscript arrays): slices
+# over such a mode are left out on purpose (pyttb materialises them; that would exhaust the machine, not the check).
+#
+# Two classes break on the unchanged tree and are carried as tags (known findings C04-H1 / C04-H2); they are tried on
+# a copy and the object itself is then driven through the equivalent subscript-array form, which is exact:
+#   huge-renumber   a region / full-subscript *read* that selects at least one stored entry
+#   huge-float-subs a region / full-subscript *write* of a non-zero scalar (the new subscripts pass through float64)
+
+_HUGE = [2 ** 53 + 5, 2 ** 53 + 2 ** 20 + 1, 2 ** 60 + 3, 2 ** 62 + 1]
+
+
+@st.composite
+def _huge_index(draw, n, grow=0):
+    picks = [0, n - 1, n - 2, n // 2, n // 2 + 1, 1, 2]
+    if n > 2 ** 53:
+        picks += [2 ** 53 + 1, 2 ** 53 + 3, 2 ** 53, 2 ** 53 + 2, n - 1, n - 2]
+    i = draw(st.sampled_from(picks))
+    if grow and draw(st.integers(0, 3)) == 0:
+        i = n - 1 + draw(st.integers(1, grow))
+    return int(max(0, i))
+
+
+@st.composite
+def _huge_history(draw, tier):
+    N = draw(st.integers(1, 3))
+    shape = [draw(st.sampled_from([2, 3, 5])) for _ in range(N)]
+    for m in draw(st.lists(st.integers(0, N - 1), min_size=1, max_size=2, unique=True)):
+        shape[m] = draw(st.sampled_from(_HUGE))
+    entries = []
+    for _ in range(draw(st.integers(0, 4))):
+        sub = [draw(_huge_index(n)) for n in shape]
+        sub = [min(s, n - 1) for s, n in zip(sub, shape)]
+        if sub not in [e[0] for e in entries]:
+            entries.append([sub, draw(gen.NZ_INT_VALUES)])
+    cur = list(shape)
+    ops = []
+    known = [list(e[0]) for e in entries]
+    for _ in range(draw(st.integers(2, 6))):
+        kind = draw(st.sampled_from(["wfull", "wfull", "wsubs", "wregion", "wregion", "rsubs", "rfull", "rregion"]))
+        write = kind.startswith("w")
+        def pos(grow):
+            if known and draw(st.booleans()):
+                base = list(draw(st.sampled_from(known)))
+                if draw(st.booleans()):  # a neighbour of a stored position (one off in one mode)
+                    m = draw(st.integers(0, N - 1))
+                    base[m] = max(0, min(cur[m] - 1, base[m] + draw(st.sampled_from([-1, 1]))))
+                return base
+            return [draw(_huge_index(n, grow)) if grow else min(draw(_huge_index(n)), n - 1) for n in cur]
+        if kind in ("wfull", "rfull"):
+            p = pos(3 if write else 0)
+            op = dict(op=kind, sub=p)
+            if not write and draw(st.integers(0, 3)) == 0:
+                op["neg"] = draw(st.integers(0, N - 1))  # this component is spelled counting from the end
+        elif kind in ("wsubs", "rsubs"):
+            rows = []
+            for _ in range(draw(st.integers(1, 3))):
+                p = pos(2 if write else 0)
+                if p not in rows:
+                    rows.append(p)
+            op = dict(op=kind, rows=rows)
+        else:
+            key = []
+            for m, n in enumerate(cur):
+                if draw(st.booleans()):
+                    key.append(pos(0)[m])
+                else:
+                    k = draw(st.integers(1, 3))
+                    lst = []
+                    for _ in range(k):
+                        i = pos(0)[m]
+                        if i not in lst:
+                            lst.append(i)
+                    key.append(dict(l=lst) if draw(st.booleans()) else dict(a=lst))
+            op = dict(op=kind, key=key)
+        if write:
+            zero = draw(st.integers(0, 2)) == 0
+            if kind == "wsubs" and not zero and draw(st.booleans()):
+                op["vals"] = [draw(gen.INT_VALUES) for _ in op["rows"]]
+            else:
+                op["v"] = 0.0 if zero else draw(gen.NZ_INT_VALUES)
+            # track shape and (possibly) stored positions
+            addressed = _huge_positions(op)
+            for p in addressed:
+                for m, i in enumerate(p):
+                    cur[m] = max(cur[m], i + 1)
+                if p not in known:
+                    known.append(p)
+        ops.append(op)
+    return dict(shape=shape, entries=entries, ops=ops)
+
+
+def _huge_positions(op):
+    if "sub" in op:
+        return [list(op["sub"])]
+    if "rows" in op:
+        return [list(r) for r in op["rows"]]
+    idx = [[e] if M.is_int(e) else list(M.elem_list(e)) for e in op["key"]]
+    return [list(p) for p in itertools.product(*idx)]
+
+
+def _huge_entries(S):
+    if S.subs.size == 0:
+        return {}
+    return {tuple(int(i) for i in r): float(v) for r, v in zip(np.asarray(S.subs), np.asarray(S.vals).reshape(-1))}
+
+
+def _huge_state_ok(ctx, what, S, model, shape):
+    ok = ctx.check([int(n) for n in S.shape] == list(shape), f"{what}:shape", f"{tuple(S.shape)} vs {shape}")
+    if S.subs.size:
+        ok = ctx.check(np.issubdtype(np.asarray(S.subs).dtype, np.integer), f"{what}:wellformed(subs-dtype)", str(S.subs.dtype)) and ok
+        if not ok:
+            return False
+        got = _huge_entries(S)
+        ok = ctx.check(len(got) == S.subs.shape[0], f"{what}:wellformed(duplicate-subscripts)") and ok
+        ok = ctx.check(all(0 <= i < n for k in got for i, n in zip(k, [int(x) for x in S.shape])),
+                       f"{what}:wellformed(subs-out-of-shape)", sorted(got)[:3]) and ok
+    else:
+        got = {}
+    want = {k: v for k, v in model.items() if v != 0}
+    return ctx.check({k: v for k, v in got.items() if v != 0} == want and all(k in model or v != 0 for k, v in got.items()),
+                     f"{what}:values", f"got {sorted(got.items())[:4]} want {sorted(want.items())[:4]}") and ok
+
+
+def _huge_tags(op, model):
+    if op["op"] in ("rfull", "rregion"):
+        return ["huge-renumber"] if any(tuple(p) in model and model[tuple(p)] != 0 for p in _huge_positions(op)) else []
+    if op["op"] in ("wfull", "wregion") and op.get("v", 0.0) != 0:
+        return ["huge-float-subs"]
+    return []
+
+
+def _huge_py_key(op, shape):
+    if "sub" in op:
+        k = [int(i) for i in op["sub"]]
+        if op.get("neg") is not None:
+            k[op["neg"]] = k[op["neg"]] - int(shape[op["neg"]])
+        return tuple(k)
+    if "rows" in op:
+        return np.array(op["rows"], dtype=np.int64).reshape(len(op["rows"]), len(op["rows"][0]))
+    return tuple(int(e) if M.is_int(e) else ([int(i) for i in e["l"]] if "l" in e else np.array(e["a"], dtype=np.int64))
+                 for e in op["key"])
+
+
+@cell("C04/huge-modes/sptensor", strategy=_huge_history, quick=200, thorough=5000, shards=(2, 8))
+def huge_modes_sptensor(ctx, case):
+    shape = [int(n) for n in case["shape"]]
+    N = len(shape)
+    model = {tuple(e[0]): float(e[1]) for e in case["entries"]}
+    if model:
+        S = ttb.sptensor(np.array([list(k) for k in model], dtype=np.int64).reshape(len(model), N),
+                         np.array(list(model.values()), dtype=float).reshape(-1, 1), tuple(shape))
+    else:
+        S = ttb.sptensor(shape=tuple(shape))
+    ctx.label(f"order{N}", f"start-nnz{min(len(model), 3)}", "mode>=2^60" if max(shape) >= 2 ** 60 else "mode>2^53")
+    _huge_state_ok(ctx, "S.start", S, model, shape)
+    ctx.nt = False
+    for op in case["ops"]:
+        kind = op["op"]
+        tags = _huge_tags(op, model)
+        what = {"wfull": "S.write-full", "wsubs": "S.write-subs", "wregion": "S.write-region", "rfull": "S.read-full",
+                "rsubs": "S.read-subs", "rregion": "S.read-region"}[kind] + _suffix(tags)
+        ctx.label(kind, *[f"exercised:{t}" for t in tags])
+        pos = _huge_positions(op)
+        if kind.startswith("w"):
+            vals = op["vals"] if "vals" in op else [op["v"]] * len(pos)
+            new_shape = list(shape) + [1] * 0
+            for p in pos:
+                for m, i in enumerate(p):
+                    new_shape[m] = max(new_shape[m], i + 1)
+            new_model = dict(model)
+            for p, v in zip(pos, vals):
+                if v == 0:
+                    new_model.pop(tuple(p), None)
+                else:
+                    new_model[tuple(p)] = float(v)
+            if new_shape != shape:
+                ctx.label("grow-extent")
+            if any(i > 2 ** 53 and i % 2 for p in pos for i in p):
+                ctx.label("subscript-not-a-float64")
+                ctx.nt = True
+            rhs = (np.array(op["vals"], dtype=float).reshape(-1, 1) if "vals" in op else float(op["v"]))
+            if tags:
+                # known class: the natural form on a copy, then the exact equivalent on the object itself
+                C = S.copy()
+                if _guard(ctx, what, lambda: C.__setitem__(_huge_py_key(op, shape), rhs)):
+                    _huge_state_ok(ctx, what, C, new_model, new_shape)
+                eq = np.array(pos, dtype=np.int64).reshape(len(pos), N)
+                if not _guard(ctx, "S.write-subs(equivalent)", lambda: S.__setitem__(eq, float(op["v"]))):
+                    return
+                if not _huge_state_ok(ctx, "S.write-subs(equivalent)", S, new_model, new_shape):
+                    return
+            else:
+                if not _guard(ctx, what, lambda: S.__setitem__(_huge_py_key(op, shape), rhs)):
+                    return
+                if not _huge_state_ok(ctx, what, S, new_model, new_shape):
+                    return
+            model, shape = new_model, new_shape
+        else:
+            got = []
+            if _guard(ctx, what, lambda: got.append(S[_huge_py_key(op, shape)])):
+                r = got[0]
+                want = [model.get(tuple(p), 0.0) for p in pos]
+                if kind == "rfull":
+                    ok = ctx.check(_is_number(r), f"{what}:type", type(r).__name__)
+                    if ok:
+                        ctx.check(float(r) == want[0], f"{what}:values", f"{r!r} vs {want[0]!r}")
+                elif kind == "rsubs":
+                    v = None if isinstance(r, (ttb.tensor, ttb.sptensor)) else np.asarray(r, dtype=float).reshape(-1)
+                    ctx.check(v is not None and v.size == len(want) and [float(x) for x in v] == want, f"{what}:values",
+                              f"{r!r} vs {want}")
+                else:
+                    # region of ints / lists: a sparse tensor over the listed indices (or a scalar when all are ints)
+                    lists = [None if M.is_int(e) else list(M.elem_list(e)) for e in op["key"]]
+                    if all(x is None for x in lists):
+                        ctx.check(_is_number(r) and float(r) == want[0], f"{what}:values", f"{r!r} vs {want[0]!r}")
+                    elif ctx.check(isinstance(r, ttb.sptensor), f"{what}:type", type(r).__name__):
+                        kept = [x for x in lists if x is not None]
+                        ent = _huge_entries(r)
+                        exp = {}
+                        for p in pos:
+                            v = model.get(tuple(p), 0.0)
+                            if v != 0:
+                                exp[tuple(x.index(i) for x, i in zip(kept, [i for i, l in zip(p, lists) if l is not None]))] = v
+                        shapes_ok = [int(n) for n in r.shape] in ([len(x) for x in kept], [len(x) for x in kept if len(x) > 1])
+                        ctx.check(shapes_ok, f"{what}:shape", tuple(r.shape))
+                        if [int(n) for n in r.shape] == [len(x) for x in kept]:
+                            ctx.check({k: v for k, v in ent.items() if v != 0} == exp, f"{what}:values", f"{ent} vs {exp}")
+            _huge_state_ok(ctx, what + ":state-after-read", S, model, shape)
+
+
+KNOWN_TAGS = KNOWN_TAGS + ("huge-renumber", "huge-float-subs")
+PREDICATES["has_huge_renumber"] = lambda case: "ops" in case and "entries" in case and any(
+    o["op"] in ("rfull", "rregion") for o in case["ops"])
+PREDICATES["has_huge_float_subs"] = lambda case: "ops" in case and "entries" in case and any(
+    o["op"] in ("wfull", "wregion") and o.get("v", 0.0) != 0 for o in case["ops"])
